@@ -214,6 +214,19 @@ pub fn execute(cc: &CCase) -> Result<Exec, Fail> {
     let scfg = SchedulerCfg { choices: cc.choices.clone(), probes: cc.probes.clone(), probe_wait: Duration::from_millis(25), watchdog: Duration::from_secs(90) };
     let log = drive(&gates, &rx, n, &scfg);
     gates.release_all();
+    if log.inconclusive.is_some() {
+        // the scheduler gave up: threads that are stuck inside the server cannot be ended - give
+        // them a little time and leave them behind (they hold nothing but this case's storage)
+        let t0 = std::time::Instant::now();
+        while t0.elapsed() < Duration::from_secs(10) && joins.iter().any(|j| !j.is_finished()) {
+            std::thread::sleep(Duration::from_millis(50));
+        }
+        if joins.iter().any(|j| !j.is_finished()) {
+            let m = log.inconclusive.clone().unwrap_or_default();
+            std::mem::forget(dir);
+            crate::engine::give_up("schedule", &format!("scheduler: {m}; request threads are stuck inside the server (still there 10 s after every gate was opened) - batch {:?}, configuration {:?}, via {:?}", cc.batch, cc.conf, cc.via));
+        }
+    }
     for j in joins {
         let _ = j.join();
     }
@@ -755,7 +768,7 @@ pub fn run(tier: Tier, seed: u64) -> Report {
         tier,
         seed,
         "exploration",
-        "2-3 request threads (1-2 requests each, all four operations, same client, new or existing) run over the real backends behind a scheduling wrapper: a gate before every storage call, at transaction begin and at transaction drop; exactly one thread runs between gates. (a) exhaustive depth-first enumeration of all block-level schedules for the canonical batches (every unordered pair of operations on a new and on an existing client; memory, one SQLite object, one SQLite object per thread on one directory; HTTP handlers and library); (b) generated batches with generated schedules and probe steps that grant a thread at transaction begin while the lock is modelled as taken, to test the real lock. Oracle: some one-at-a-time order respecting real-time precedence yields exactly these responses (reference model) and the final chain/snapshot/record count; no error responses; no two accepts on one parent; no orphaned version. Non-trivial: a schedule in which the transactions of one request are not contiguous, or a probe that found the lock held; distinct by (configuration, entry, batch kinds, block-level schedule).",
+        "2-3 request threads (1-2 requests each, all four operations, same client, new or existing) run over the real backends behind a scheduling wrapper: a gate before every storage call, at transaction begin and at transaction drop; exactly one thread runs between gates. (a) exhaustive depth-first enumeration of all block-level schedules for the canonical batches (every unordered pair of operations on a new and on an existing client; memory, one SQLite object, one SQLite object per thread on one directory; HTTP handlers and library); (b) generated batches with generated schedules and probe steps that grant a thread at transaction begin while the lock is modelled as taken, to test the real lock; (c) several instances on one directory used in turn, operating-system schedules of 3-8 threads (memory, one SQLite object per thread, two server processes), and 2-4 instances opened at the same moment on a directory that holds no database yet. Oracle: some one-at-a-time order respecting real-time precedence yields exactly these responses (reference model) and the final chain/snapshot/record count; no error responses; no two accepts on one parent; no orphaned version. Non-trivial: a schedule in which the transactions of one request are not contiguous, or a probe that found the lock held; distinct by (configuration, entry, batch kinds, block-level schedule).",
     );
     rep.assume("schedules are controlled at the granularity of storage-trait calls; interleavings inside one storage call or inside SQLite are not controlled (a probe only checks that the backend's own lock keeps a second transaction out)");
     rep.assume("a probed thread that stays silent for 25 ms is taken to be waiting in the backend's lock");
@@ -1533,7 +1546,7 @@ pub fn check_stress(sc: &StressCase, st: &mut Stats) -> CheckResult {
                     env: vec![],
                     connect: vec![format!("127.0.0.1:{port}").parse().unwrap()],
                     cwd: None,
-                    dir_arg: None,
+                    dir_arg: None, listen: vec![],
                 };
                 if let Ok(p) = crate::props::binary::spawn(&bin, &launch) {
                     started = Some(p);
